@@ -547,6 +547,37 @@ fn run_fn(rec: &mut Rec, job: &Value) {
     });
 }
 
+/// Faults injected on purpose, for `bin/check C09 --selftest` only: the supervision (panic capture, crash and
+/// timeout attribution, resumption) must turn each of them into the matching event and carry on after it.
+#[allow(unconditional_recursion)]
+fn deep(n: u64) -> u64 {
+    let pad = [n; 64];
+    std::hint::black_box(&pad);
+    deep(n + 1) + pad[3]
+}
+fn run_selftest(rec: &mut Rec, job: &Value) {
+    let what = job["fn"].as_str().unwrap_or("").to_string();
+    if !rec.todo(0) {
+        return;
+    }
+    rec.call(0, &format!("selftest.{what}"), "token", json!({}), || match what.as_str() {
+        "panic" => panic!("injected panic"),
+        "abort" => std::process::abort(),
+        "overflow" => Outcome::Value(format!("{}", deep(0))),
+        "alloc" => {
+            let v: Vec<u8> = vec![1; 64 << 30];
+            Outcome::Value(format!("{}", v.len()))
+        }
+        "hang" => {
+            let mut x = 0u64;
+            loop {
+                x = std::hint::black_box(x.wrapping_add(1));
+            }
+        }
+        _ => Outcome::Value("nothing".to_string()),
+    });
+}
+
 fn record(a: &[String]) -> i32 {
     install_hook();
     let jobs_path = std::path::absolute(&a[2]).unwrap();
@@ -592,6 +623,7 @@ fn record(a: &[String]) -> i32 {
         match job["kind"].as_str().unwrap_or("") {
             "def" => run_def(&mut rec, &job, &sets),
             "fn" => run_fn(&mut rec, &job),
+            "selftest" => run_selftest(&mut rec, &job),
             _ => {}
         }
     }
